@@ -127,6 +127,28 @@ func (s *script) checkSelected(what string, h int, inputs []types.SiacoinOutputI
 	return
 }
 
+// checkReservedAreInputs: a request may take out of circulation only what it wrote into the
+// transactions it returned.  `before` is SpendableOutputs() right before the call.
+func (s *script) checkReservedAreInputs(what string, before map[types.SiacoinOutputID]bool, inputs []types.SiacoinOutputID) {
+	after := s.spendableSet()
+	isInput := map[types.SiacoinOutputID]bool{}
+	for _, id := range inputs {
+		isInput[id] = true
+	}
+	for id := range before {
+		if !after[id] && !isInput[id] {
+			s.c.Oracle(what+"-reserved-non-input", "%s made output %d unspendable although no returned transaction spends it (ReleaseInputs on the result cannot free it)", what, s.e.ids[id])
+		}
+	}
+	if s.e.cfg.dur != 0 {
+		for _, id := range inputs {
+			if before[id] && after[id] {
+				s.c.Oracle(what+"-input-not-reserved", "%s returned input %d but it is still listed as spendable", what, s.e.ids[id])
+			}
+		}
+	}
+}
+
 func preOuts(e *env, own, void types.Currency) (outs []types.SiacoinOutput) {
 	if !own.IsZero() {
 		outs = append(outs, types.SiacoinOutput{Value: own, Address: e.addr})
@@ -231,6 +253,7 @@ func (s *script) fund(v2 bool, amt types.Currency, uc bool, own types.Currency, 
 		s.c.Oracle("fund-tosign", "toSign does not cover the added inputs")
 	}
 	s.emit(op, fmt.Sprintf("ok in %s sum %s %s", idList(ids), cur(sum), change))
+	s.checkReservedAreInputs("fund", before, t.inputs)
 	if !amt.IsZero() {
 		e.txns[h] = t
 	}
@@ -553,6 +576,11 @@ func (s *script) redistribute(outputs int, amt, fpb types.Currency) {
 		e.txns[t.h] = t
 	}
 	s.emit(op, sb.String())
+	var allIn []types.SiacoinOutputID
+	for id := range all {
+		allIn = append(allIn, id)
+	}
+	s.checkReservedAreInputs("redistribute", before, allIn)
 }
 
 func (s *script) split(n int, min types.Currency) {
@@ -623,6 +651,7 @@ func (s *script) split(n int, min types.Currency) {
 	}
 	s.numberOutputs(t)
 	e.txns[h] = t
+	s.checkReservedAreInputs("split", before, t.inputs)
 	nOut := len(txn.SiacoinOutputs)
 	s.emit(op, fmt.Sprintf("ok in %s n %d per %s last %s f %s", idList(ids), nOut, cur(txn.SiacoinOutputs[0].Value), cur(txn.SiacoinOutputs[nOut-1].Value), cur(txn.MinerFee)))
 }
